@@ -3,6 +3,17 @@
 import json, subprocess, collections
 
 CLAIMS = {
+ "C16": dict(
+   text="Static rules: an interval evaluation of the integer def-use chain from the registry's type count / a fresh id to every allocation of a table's layout array shows that no conversion or narrow addition can wrap for MaskTotalBits of the build (this is the check that reports the uint8 overflow for ids >= 240); the undo of a registration writes every field the registration writes; both relation-type tests agree; accessors use their own registry; the rollback under lock is complete; layout extension reaches every table.",
+   note="Axioms of the interval evaluation (count <= MaskTotalBits, fresh id < MaskTotalBits) rest on the limit guard checked by R2. Does not decide id density/stability over histories nor that high ids work beyond the capacity chain.",
+   technique="static analysis: interval evaluation of one def-use chain (go/ssa), mod-set inclusion, sibling agreement",
+   ref="§2 C16"),
+ "C20": dict(
+   text="Static rules: possibly-empty resource slots are only asserted nil-safely, the slots have exactly three writers, no resource operation reaches a world-lock test or writes entity/table/component-registry state (independence from locking and entity operations for every entry and path), registry separation, strict add/remove guards, Get/Has read the same slot, reset clears every slot.",
+   note="Does not decide pointer identity over histories. Trusted: go/ssa, call graph, mod-set summaries.",
+   technique="static analysis: who-may-write, call-graph reachability, mod-set summaries and dominance rules on go/ssa",
+   ref="§2 C20"),
+
  "C02": dict(
    text="Static ownership and shape rules on go/ssa for the entity pool: who may write the pool and who may issue/recycle handles, the generation bump on every recycle path, the liveness comparison, the reserved slot 0 (seed, refusal, reset), exactly one pool call per row in the bulk loops, growth of the world index, whole-slice growth copies, whole-handle comparisons, and restoration of every pool field by the load path. Each is a necessary condition of 'never alive again, never shared' on every path.",
    note="Does NOT decide the implicit free list's threading, counts, or uniqueness of handles over histories. Trusted: go/ssa, mod-set summaries.",
